@@ -502,7 +502,7 @@ def explore_cfg(arg):
         x = run(p, None)
         explore._account(st, x, p)
         if st.executions % 25 == 0:
-            gc.collect()          # arena mmaps of finished executions
+            vproc.safe_collect()  # arena mmaps of finished executions
         if x.violation:
             st.violations.pop()
             found.setdefault((x.violation.split(':')[0][:60],
